@@ -21,7 +21,19 @@
 //! (operators by value / reference / assigning, `Wrapping`, checked, trait methods) and print `ok`
 //! only if all of them return the primary result.
 use crate::util::*;
+#[cfg(crypto_bigint_verif)]
 use crypto_bigint::verif_hooks as hooks;
+/// stand-ins for the two forwarders used inside PUBLIC operation lines when the hooks are not compiled in
+#[cfg(not(crypto_bigint_verif))]
+mod hooks {
+    use crypto_bigint::{Limb, Reciprocal, Uint};
+    pub fn div_rem_limb_with_reciprocal<const N: usize>(x: &Uint<N>, rc: &Reciprocal) -> (Uint<N>, Limb) {
+        x.div_rem_limb_with_reciprocal(rc)
+    }
+    pub fn rem_limb_with_reciprocal<const N: usize>(x: &Uint<N>, rc: &Reciprocal) -> Limb {
+        x.rem_limb_with_reciprocal(rc)
+    }
+}
 use crypto_bigint::{
     BoxedUint, CheckedDiv, DivRemLimb, DivVartime, Limb, NonZero, Reciprocal, RemLimb, RemMixed, Uint, Wrapping,
 };
@@ -53,7 +65,7 @@ fn recip_select(d: Limb, c: usize) -> Option<Result<Reciprocal, String>> {
     let fresh = Reciprocal::new(nz);
     let dflt = Reciprocal::default();
     let dflt_trait: Reciprocal = Default::default();
-    if dflt != dflt_trait || dflt.verif_fields() != dflt_trait.verif_fields() {
+    if dflt != dflt_trait || fields_tok(&dflt) != fields_tok(&dflt_trait) {
         return Some(Err("default-forms-differ".into()));
     }
     let choice = Choice::from((c & 1) as u8);
@@ -68,11 +80,25 @@ fn recip_select(d: Limb, c: usize) -> Option<Result<Reciprocal, String>> {
     Some(Ok(sel))
 }
 
+#[cfg(not(crypto_bigint_verif))]
+fn fields_tok(rc: &Reciprocal) -> String {
+    // without the field accessor: the fields as the derived `Debug` text shows them
+    match recip_fields(rc) {
+        Some((dn, sh, rv)) => format!("{dn:x} {sh} {rv:x}"),
+        None => "debug-text-unparsable".to_string(),
+    }
+}
+#[cfg(crypto_bigint_verif)]
 fn fields_tok(rc: &Reciprocal) -> String {
     let (dn, sh, rv) = rc.verif_fields();
     format!("{dn:x} {sh} {rv:x}")
 }
 
+#[cfg(not(crypto_bigint_verif))]
+fn hook_op(_name: &str, _a: &[&str]) -> Option<String> {
+    Some(HOOK_UNAVAILABLE.to_string())
+}
+#[cfg(crypto_bigint_verif)]
 fn hook_op(name: &str, a: &[&str]) -> Option<String> {
     Some(match (name, a) {
         ("short_div", [x, xb, y, yb]) => {
